@@ -36,7 +36,7 @@ def canon_doc(j):
             return j
         return Fraction(j)
     if isinstance(j, str):
-        return j
+        return str(j)
     if isinstance(j, (list, tuple)):
         return [canon_doc(x) for x in j]
     if isinstance(j, dict):
@@ -124,6 +124,48 @@ def normalise_doc(d, top=True):
     return d
 
 
+def np_columns(data_rows):
+    """rows of cells -> one numpy array per column (the quantity lambdas index the record by column)"""
+    import numpy as np
+
+    cols = []
+    n = len(data_rows)
+    for c in range(gen.NCOLS):
+        vals = [r[c] for r in data_rows]
+        if c in gen.NUM_COLS:
+            cols.append(np.array([float(v) for v in vals], dtype=np.float64))
+        elif c == gen.BOOL_COL:
+            cols.append(np.array([bool(v) for v in vals], dtype=bool))
+        elif c == gen.VEC_COL:
+            cols.append(np.array([[float(x) for x in v] for v in vals], dtype=np.float64).reshape(n, 2))
+        else:
+            cols.append(np.array(["NaN" if v is None else str(v) for v in vals], dtype=object if False else "U8"))
+    return cols
+
+
+def prune_doc(d):
+    """drop sparse bins / categories / bag keys that hold zero weight (C03: 'up to ... zero weight')"""
+    if isinstance(d, dict):
+        out = {}
+        for k, v in d.items():
+            if k == "bins" and isinstance(v, dict):
+                out[k] = {bk: prune_doc(bv) for bk, bv in v.items() if not _is_empty(bv)}
+            elif k == "values" and isinstance(v, list) and v and isinstance(v[0], dict) and "w" in v[0]:
+                out[k] = [prune_doc(x) for x in v if x["w"] != 0]
+            else:
+                out[k] = prune_doc(v)
+        return out
+    if isinstance(d, list):
+        return [prune_doc(x) for x in d]
+    return d
+
+
+def _is_empty(frag):
+    if isinstance(frag, dict):
+        return frag.get("entries") == 0
+    return frag == 0
+
+
 def classify(e):
     if isinstance(e, Boom):
         return "raise:user"
@@ -142,6 +184,7 @@ class PyExec:
         self.snaps = {}
         self.same_object = {}
         self.last_fill_raised = False
+        self.np_filled = set()
 
     def state(self, h):
         return canon_doc(self.pool[h].toJson())
@@ -170,6 +213,35 @@ class PyExec:
                 except Exception as e:  # noqa: BLE001
                     out.append(classify(e))
             return out
+        if k == "fillsnp":
+            # op: ("fillsnp", h, rows, mode) — one vectorised fill of the whole batch;
+            # mode: "unit" (default weight), ("scalar", w), or "array" (the rows' weights)
+            import numpy as np
+
+            rows, mode = op[2], op[3]
+            data = np_columns([r[0] for r in rows])
+            before = [c.copy() for c in data]
+            try:
+                if mode == "unit":
+                    P[op[1]].fill.numpy(data)
+                elif isinstance(mode, (list, tuple)) and mode[0] == "scalar":
+                    P[op[1]].fill.numpy(data, mode[1])
+                else:
+                    w = np.array([float(r[1]) for r in rows], dtype=np.float64)
+                    w0 = w.copy()
+                    P[op[1]].fill.numpy(data, w)
+                    if not np.array_equal(w, w0, equal_nan=True):
+                        return "violation: fill.numpy modified the weight array it was given"
+                self.np_filled.add(op[1])
+            except Exception as e:  # noqa: BLE001
+                self.np_filled.add(op[1])
+                return classify(e)
+            for c, b in zip(data, before):
+                same = (c.dtype == b.dtype and c.shape == b.shape and
+                        (np.array_equal(c, b, equal_nan=True) if c.dtype.kind in "fc" else np.array_equal(c, b)))
+                if not same:
+                    return "violation: fill.numpy modified an input array"
+            return "ok"
         if k == "add":
             try:
                 P[op[1]] = P[op[2]] + P[op[3]]
@@ -269,6 +341,16 @@ def op_to_wire(op):
         return ["$fill", "$" + op[1], [cell_to_wire(c) for c in op[2]], num_to_wire(op[3])]
     if k == "fills":
         return ["$fills", "$" + op[1], [[[cell_to_wire(c) for c in d], num_to_wire(w)] for d, w in op[2]]]
+    if k == "fillsnp":
+        mode = op[3]
+        rows = []
+        for d, w in op[2]:
+            ww = 1.0 if mode == "unit" else (mode[1] if isinstance(mode, (list, tuple)) else w)
+            d = list(d)
+            if d[gen.STR_COL] is None:
+                d[gen.STR_COL] = "NaN"
+            rows.append([[cell_to_wire(c) for c in d], num_to_wire(ww)])
+        return ["$fills", "$" + op[1], rows]
     if k == "add":
         return ["$add", "$" + op[1], "$" + op[2], "$" + op[3]]
     if k == "iadd":
@@ -319,6 +401,13 @@ def same_reply(op, rp, rm):
     """None if the two replies agree, else a description."""
     if op[0] == "json":
         return diff_doc(rp, rm)
+    if op[0] == "fillsnp":
+        bad = [x for x in rm if x != "ok"]
+        if rp == "ok" and not bad:
+            return None
+        if isinstance(rp, str) and rp.startswith("violation"):
+            return None   # reported by the oracle
+        return "fillsnp: impl %r vs model %r" % (rp, rm[:3])
     if op[0] == "fills":
         if len(rp) != len(rm):
             return "fills: %r vs %r" % (rp, rm)
@@ -374,6 +463,8 @@ def run_history(ops, model, check_states=True, py=None, replies=None, model_ops=
             continue
         k = op[0]
         if k in ("new", "add", "mul", "rmul", "zero", "copy", "load") and rp == "ok":
+            if k != "new" and any(x in py.np_filled for x in op[2:] if isinstance(x, str)):
+                py.np_filled.add(op[1])
             if op[1] not in live:
                 live.append(op[1])
         if check_states and k not in ("json", "eq", "drop") and not (isinstance(rp, str) and rp.startswith("raise") and k != "fill" and k != "iadd"):
@@ -385,7 +476,10 @@ def run_history(ops, model, check_states=True, py=None, replies=None, model_ops=
                 except Exception as e:  # noqa: BLE001
                     first = {"index": i, "op": _brief(op), "what": "toJson of %s raised %s: %s" % (h, type(e).__name__, e)}
                     break
-                d = diff_doc(sp, model.state(h))
+                sm = model.state(h)
+                if py.np_filled:
+                    sp, sm = prune_doc(sp), prune_doc(sm)
+                d = diff_doc(sp, sm)
                 if d:
                     first = {"index": i, "op": _brief(op), "what": "state of %s after op: %s" % (h, d)}
                     break
